@@ -708,6 +708,12 @@ func runSQL(cfg *config) {
 		id++
 		sqlTextCase(cfg, id, q, "", "corpus")
 	}
+	// a comment that is never closed swallows the rest of the statement: refused, like an unterminated literal
+	for _, q := range []string{"DELETE FROM t /* WHERE a = 1", "SELECT * FROM t WHERE a = 2 /* AND b = 1", "UPDATE t SET a = 1 /*", "SELECT /* unterminated", "SELECT 1 /* a */ , 2 /* b",
+		"DELETE FROM t /* the test row; nothing else"} {
+		id++
+		sqlTextCase(cfg, id, q, "!err", "open-comment")
+	}
 	// every token sequence up to length 3 (quick: 2 over the full vocabulary + 3 over the parser-relevant classes)
 	voc := tokenVocabulary()
 	for _, a := range voc {
